@@ -874,7 +874,16 @@ func (p *Parser) inferExprType(mod *sysl.Module,
 }
 
 func (p *Parser) inferTypes(mod *sysl.Module, appName string) {
-	for viewName, view := range mod.Apps[appName].Views {
+	// Views are visited in name order: the types made up for anonymous transforms are numbered per view,
+	// so when two views need one the outcome must not depend on the iteration order of the map.
+	views := mod.Apps[appName].Views
+	viewNames := make([]string, 0, len(views))
+	for viewName := range views {
+		viewNames = append(viewNames, viewName)
+	}
+	sort.Strings(viewNames)
+	for _, viewName := range viewNames {
+		view := views[viewName]
 		if syslutil.HasPattern(view.Attrs, "abstract") {
 			continue
 		}
